@@ -41,7 +41,9 @@ func c13Ops(seed int64, n int) []c13Op {
 			t, _ := Render(GenModel(rng, GenOpts{DSLValid: true, Conds: true, MaxDepth: 3}), rand.New(rand.NewSource(rng.Int63())))
 			ops = append(ops, c13Op{Kind: "dsl", Text: t})
 		case 1:
-			ops = append(ops, c13Op{Kind: "print", Model: GenModel(rng, GenOpts{Conds: true, Modular: true, MaxDepth: 3, DSLValid: true}).Proto()})
+			// half of the printed models are arbitrary protobuf models (direct assignment in any position and
+			// multiplicity, missing metadata), not only images of the DSL parser
+			ops = append(ops, c13Op{Kind: "print", Model: GenModel(rng, GenOpts{Conds: true, Modular: rng.Intn(2) == 0, MaxDepth: 3, DSLValid: rng.Intn(2) == 0}).Proto()})
 		case 2:
 			ms := GenModSet(rng, rng.Intn(2))
 			ms.Render(rng)
@@ -77,7 +79,10 @@ func c13Exec(op c13Op) (string, string) {
 		o2, _, _ := realPrint(op.Model, true)
 		frame := ""
 		if canonModel(before) != canonModel(op.Model) || !proto.Equal(before, op.Model) {
-			frame = "TransformJSONProtoToDSL modified the model it was given"
+			frame = "TransformJSONProtoToDSL modified the model it was given: " + canonModel(before)
+		}
+		if o1b, _, _ := realPrint(op.Model, false); o1b != o1 && frame == "" {
+			frame = "a second TransformJSONProtoToDSL call on the same model gives a different result: " + canonModel(before)
 		}
 		return o1 + "|" + o2, frame
 	case "merge":
